@@ -808,6 +808,18 @@ def check_c10(case, w, out):
     tree = case["tree"]
     A = w.kconf(tree)
     run_ops(A, case["ops"], w)
+    # A configuration is what the user assigned (user values, picks).  Loading a file whose default-marked entries no
+    # longer match the tree's defaults leaves, under the default policy, an *injected default* behind (the stored
+    # value replaces the option's `default` properties for this session): state that is neither a user value nor part
+    # of the tree and that no configuration file can carry.  Such histories are outside "all reachable configurations"
+    # of C10 in the same way as C03's fresh-instance comparison excludes loads with stale default-marked entries.
+    fresh = w.kconf(tree)
+    fresh_defaults = dict(("choice:%d" % i, [getattr(d[0], "name", None) for d in c.defaults]) for i, c in enumerate(fresh.unique_choices))
+    if (any(getattr(s_, "_default_value_injected", False) for s_ in A.unique_defined_syms)
+            or any([getattr(d[0], "name", None) for d in c.defaults] != fresh_defaults.get("choice:%d" % i)
+                   for i, c in enumerate(A.unique_choices))):
+        out.skipped = getattr(out, "skipped", 0) + 1
+        return
     vals_a = lib("values", values, A)
     texts = {}
     loaded = {}
